@@ -1103,3 +1103,154 @@ def fam_twin(tier):
         for bb, kk in pending_b:
             sc.line(bb, 1, 0, tag="B:t%d:C17:full:removal-of-rejected-or-unfragmented-lines" % kk)
     return sc
+
+
+# ===========================================================================
+# C18: capacity boundaries of the no-allocator build (also run on std / alloc)
+# ===========================================================================
+def fam_capacity(tier):
+    rnd = rng("capacity")
+    tb = T.tables()
+    sc = Scenario()
+    thorough = tier == "thorough"
+    # per-sentence payload capacity
+    sc.unit()
+    sc.new(0)
+    for n in (1, 100, 255, 256, 383, 384, 385, 386, 500, 512, 513, 1000):
+        for dec in (0, 1):
+            pay = bytearray(rand_armor(rnd, n))
+            pay[0] = nmea.ARMOR[8]            # type 8: any length decodes (std) / binary capacity (none)
+            sc.line(nmea.line(payload=bytes(pay)), 0, dec)
+            sc.line(nmea.line(n=2, k=1, sid=1, payload=bytes(pay)), 0, dec)
+    # reassembly capacity: groups summing to 383 / 384 / 385 / 700 in 2..9 fragments, followed by more
+    for total in (100, 383, 384, 385, 386, 500, 700, 768, 1200):
+        for parts in ((2, 3, 4, 9) if not thorough else (2, 3, 4, 5, 6, 7, 8, 9)):
+            for rep in range(3 if thorough else 1):
+                sc.unit()
+                sc.new(0)
+                cuts = split_points(rnd, total, parts)
+                if max(cuts[i + 1] - cuts[i] for i in range(parts)) > 384:
+                    cuts = [total * i // parts for i in range(parts)] + [total]
+                sid = rnd.choice([None, 3, 7])
+                pay = bytearray(rand_armor(rnd, total))
+                pay[0] = nmea.ARMOR[rnd.choice([8, 6, 14, 12, 1])]
+                for k in range(1, parts + 1):
+                    sc.line(nmea.line(n=parts, k=k, sid=sid, payload=bytes(pay[cuts[k - 1]:cuts[k]])), 0, 1)
+                # what follows an overflow must not be contaminated
+                sc.line(nmea.line(n=parts + 1, k=parts + 1, sid=sid, payload=rand_armor(rnd, 5)), 0, 0)
+                sc.line(nmea.line(n=2, k=2, sid=sid, payload=rand_armor(rnd, 5)), 0, 0)
+                sc.line(nmea.line(n=2, k=1, sid=sid, payload=rand_armor(rnd, 5)), 0, 0)
+                sc.line(nmea.line(n=2, k=2, sid=sid, payload=rand_armor(rnd, 5)), 0, 0)
+    # the classic: 300 + 100 + 10
+    sc.unit()
+    sc.new(0)
+    for k, ln in ((1, 300), (2, 100), (3, 10)):
+        sc.line(nmea.line(n=3, k=k, sid=7, payload=rand_armor(rnd, ln)), 0, 0)
+    # binary data 118 / 119 / 120 bytes in types 6, 8, 17
+    sc.unit()
+    sc.new(0)
+    for (t, hdr) in ((6, 11), (8, 7), (17, 15)):
+        for nb in (0, 1, 117, 118, 119, 120, 121, 200):
+            d = bytearray(rnd.randrange(256) for _ in range(hdr + nb))
+            d[0] = (t << 2) | (d[0] & 3)
+            sc.decode(bytes(d))
+            pay, fill = nmea.armor(bytes(d))
+            if len(pay) <= 384:
+                sc.line(nmea.line(payload=pay, fill=fill), 0, 1)
+    # safety texts of 19 / 20 / 21 / 156 characters
+    for (t, first) in ((12, 72), (14, 40)):
+        for nch in (1, 19, 20, 21, 22, 40, 156, 161):
+            buf = enc.BitBuf(first + 6 * nch, rnd=rnd)
+            buf.put(0, 6, t)
+            emit(sc, buf, "D")
+            emit(sc, buf, "L")
+    # lists of 4 entries plus trailing bits
+    for t in (7, 13, 20):
+        for nbytes in (21, 22, 25, 30):
+            d = bytearray(rnd.randrange(256) for _ in range(nbytes))
+            d[0] = (t << 2) | (d[0] & 3)
+            sc.decode(bytes(d))
+    return sc
+
+
+# ===========================================================================
+# C01: totality
+# ===========================================================================
+POOL = [b"", b"0", b"1", b"2", b"3", b"9", b"255", b"256", b"00", b"01", b"999999999999", b"-1", b"A"]
+
+
+def fam_totality(tier):
+    rnd = rng("totality")
+    tb = T.tables()
+    sc = Scenario()
+    thorough = tier == "thorough"
+    # history x input product: every reachable kind of parser state x a fuzz set of lines
+    histories = [[], [dict(n=3, k=1, sid=1)], [dict(n=3, k=1, sid=1), dict(n=3, k=2, sid=1)],
+                 [dict(n=2, k=1, sid=None), dict(n=2, k=2, sid=None)], [dict(n=255, k=1, sid=255)],
+                 [dict(n=9, k=1, sid=0)] + [dict(n=9, k=k, sid=0) for k in range(2, 9)],
+                 [dict(n=2, k=1, sid=5, payload=rand_armor(rnd, 384))]]
+    fuzz = []
+    for n in POOL:
+        for k in POOL:
+            for sid in (b"", b"1", b"5", b"255", b"256"):
+                fuzz.append(nmea.line(n=n, k=k, sid=sid, payload=rnd.choice([b"1", b"15M67FC000G?ufbE`FepT@3n00Sa", b"\xff", b"z{"]),
+                                      fill=rnd.choice([0, 5, b"6", b""])))
+    for plen in (0, 1, 384, 385, 2000):
+        for inj in (False, True):
+            pay = bytearray(rand_armor(rnd, plen))
+            if inj and plen:
+                pay[rnd.randrange(plen)] = rnd.choice([0, 255, 88, 120, 32])
+            for (n, k) in ((1, 1), (2, 1), (2, 2), (3, 2)):
+                fuzz.append(nmea.line(n=n, k=k, sid=1, payload=bytes(pay), fill=rnd.randrange(6)))
+    for _ in range(4000 if thorough else 150):
+        fuzz.append(bytes(rnd.randrange(256) for _ in range(rnd.randrange(0, 120))))
+    for _ in range(3000 if thorough else 100):     # NMEA-like prefix then garbage
+        base = nmea.line(payload=rand_armor(rnd, rnd.randrange(1, 40)))
+        cut = rnd.randrange(len(base))
+        fuzz.append(base[:cut] + bytes(rnd.randrange(256) for _ in range(rnd.randrange(0, 20))))
+    if not thorough:
+        rnd.shuffle(fuzz)
+        fuzz = fuzz[:700]
+    for h in histories:
+        for chunk in range(0, len(fuzz), 60):
+            sc.unit()
+            for f in fuzz[chunk:chunk + 60]:
+                sc.new(0)
+                for kw in h:
+                    kw = dict(kw)
+                    kw.setdefault("payload", b"15M")
+                    sc.line(nmea.line(**kw), 0, 0)
+                sc.line(f, 0, rnd.randrange(2))
+                sc.line(f, 0, 1)
+    # unarmor: every length x fill on random alphabet strings, plus random bytes
+    sc.unit()
+    step = 1 if thorough else 7
+    for n in list(range(0, 40)) + list(range(40, 1101, step)):
+        for f in (range(6) if (thorough or n < 40) else (n % 6,)):
+            sc.unarmor(rand_armor(rnd, n), f)
+    for _ in range(20000 if thorough else 300):
+        sc.unarmor(bytes(rnd.randrange(256) for _ in range(rnd.randrange(0, 30))), rnd.randrange(6))
+    # decode: 64 types x random bytes of every length; every byte truncation of one valid message per type
+    for t in range(64):
+        sc.unit()
+        for nb in range(0, 131 if thorough else 70):
+            for rep in range(3 if thorough else 1):
+                d = bytearray(rnd.randrange(256) for _ in range(nb))
+                if nb:
+                    d[0] = (t << 2) | (d[0] & 3)
+                sc.decode(bytes(d))
+        for s in shapes():
+            if s[0] != t:
+                continue
+            full = rand_message(tb, rnd, shape=s).bytes()
+            for cut in range(len(full) + 1):
+                sc.decode(full[:cut])
+            for kind in (b"\x00", b"\xff"):
+                d = bytearray(kind * (len(full) + 3))
+                d[0] = (t << 2) | (d[0] & 3)
+                sc.decode(bytes(d))
+    sc.unit()
+    for r in range(256):
+        sc.rot(r)
+        sc.ship(r)
+    return sc
